@@ -15,7 +15,7 @@ pub fn spec() -> PropSpec {
     PropSpec {
         id: "C07",
         level: "exploration",
-        rule: "(a) identification squitters: the grid position 1..8 x character code 0..63 is enumerated completely (other seven characters, TC 1..4, CA 0..7, address, creating vs update path, -U/-R generated), plus generated 48-bit strings; oracle = mapped characters in order (1-26 A-Z, 48-57 0-9, rest omitted), category == (TC, CA), and the W / CALLSIGN cells of the row printed by Planes::print (wake letter table L S M H J R for TC4). (b) BDS 2,0 in DF20 and DF21 under each gate state (no capability seen, DF11 CA 0..3, DF11 CA 4..7, -R): callsign changes iff the gate is open, then to the decoded string. Non-trivial = grid cells and gate-open BDS 2,0 cases; distinct by hash",
+        rule: "(a) identification squitters: the grid position 1..8 x character code 0..63 is enumerated completely (other seven characters, TC 1..4, CA 0..7, address, creating vs update path, -U/-R generated), plus generated 48-bit strings; oracle = mapped characters in order (1-26 A-Z, 48-57 0-9, rest omitted), category == (TC, CA), and the W / CALLSIGN cells of the row printed by Planes::print (wake letter table L S M H J R for TC4). (b) BDS 2,0 in DF20 and DF21 under each gate state (no capability seen, DF11 CA 0..3, DF11 CA 4..7, -R): callsign changes iff the gate is open, then to the decoded string. (c) generated callsign report sequences of one aircraft with the gate open: 3..11 identification squitters / BDS 2,0 replies in DF20 / DF21 in any mix, callsigns from a pool of two or three strings, the row shows the latest report's callsign after every step (a callsign that returns after another was shown; non-trivial = such a return). Non-trivial = grid cells and gate-open BDS 2,0 cases; distinct by hash",
         assumptions: &["Some(\"\") and None both render blank and are not distinguished", "gate states where the capability was only seen in a DF17 header are not used here (see C10)"],
         workers: 16,
         also_nochk: false,
@@ -323,12 +323,78 @@ fn run(c: &mut Ctx) {
     });
     if let Some((b, m)) = r {
         c.fail(m, "c07:bds20", json!({"kind":"b20","b":b}));
+        return;
     }
+    // (c) callsign report sequences of one aircraft
+    let cases = c.tier.pick(6_000, 60_000);
+    let r = c.proptest(cases, seq_strategy(), |c, q, counting| {
+        check_seq(q)?;
+        if counting {
+            c.eval(1);
+            let ks: Vec<String> = q.steps.iter().map(|(_, k, _)| callsign(&q.pool[(*k as usize) % q.pool.len()])).collect();
+            let returns = (2..ks.len()).any(|i| (0..i - 1).any(|j| ks[j] == ks[i] && ks[j + 1..i].iter().any(|x| *x != ks[i])));
+            if returns {
+                c.nontrivial(&format!("{:?}", q));
+                c.class("report_sequence_callsign_returns");
+            } else {
+                c.class("report_sequence_no_return");
+            }
+        }
+        Ok(())
+    });
+    if let Some((q, m)) = r {
+        c.fail(m, "c07:sequence", json!({"kind":"sequence","q":q}));
+    }
+}
+
+/// A sequence of callsign reports of ONE aircraft (identification squitters and BDS 2,0 replies in DF20 / DF21, gate
+/// open) whose callsigns come from a pool of two or three strings, so that a callsign returns after another one was
+/// shown in between (X, Y, X) through the same or another format.
+#[derive(Clone, Debug, Serialize, Deserialize)]
+pub struct Seq {
+    pub opts: Opts,
+    pub pool: Vec<[u8; 8]>,
+    pub steps: Vec<(u8, u8, u32)>, // (format 0 = DF17 TC4, 1 = DF20 BDS 2,0, 2 = DF21 BDS 2,0; pool index; AC/ID field)
+}
+
+fn seq_strategy() -> impl Strategy<Value = Seq> {
+    (gen::opts_ur(), proptest::collection::vec(gen::chars8(), 2..4), proptest::collection::vec((0u8..3, 0u8..3, prop_oneof![Just(0u32), 0u32..8192]), 3..12)).prop_map(|(opts, pool, steps)| Seq { opts, pool, steps })
+}
+
+fn check_seq(q: &Seq) -> Result<(), String> {
+    if q.pool.is_empty() {
+        return Ok(());
+    }
+    let t = run::new_table();
+    run::run_lines(&q.opts, &t, &[bits::df11(FOREIGN_AC, 5, 0).hex()]).map_err(|e| format!("reader failed: {:?}", e))?;
+    let mut shown: Vec<String> = Vec::new();
+    for (i, (f, k, code)) in q.steps.iter().enumerate() {
+        let chars = q.pool[(*k as usize) % q.pool.len()];
+        let frame = match f % 3 {
+            0 => bits::es(17, 5, FOREIGN_AC, bits::me_ident(4, 3, chars)),
+            1 => bits::df20(FOREIGN_AC, bits::ac13_q1(40 + code % 2000), gen::mb20(chars), 0),
+            _ => bits::df21(FOREIGN_AC, *code, gen::mb20(chars), 0),
+        };
+        run::run_lines(&q.opts, &t, &[frame.hex()]).map_err(|e| format!("reader failed on {}: {:?}", frame.hex(), e))?;
+        let got = run::snapshot(&t).get(&FOREIGN_AC).and_then(|r| r.ais.clone()).unwrap_or_default();
+        let want = callsign(&chars);
+        shown.push(format!("DF{}:{:?}", frame.df(), want));
+        if got != want {
+            return Err(format!("callsign report sequence {} [{}]: after step {} (frame {}) the row shows callsign {:?}, the latest report carries {:?}", shown.join(" "), q.opts.label(), i, frame.hex(), got, want));
+        }
+    }
+    Ok(())
 }
 
 fn replay(c: &mut Ctx, case: &Value) {
     c.eval(1);
     match case["kind"].as_str() {
+        Some("sequence") => {
+            let Ok(q) = serde_json::from_value::<Seq>(case["q"].clone()) else { return c.inconclusive("bad replay") };
+            if let Err(m) = check_seq(&q) {
+                c.fail(m, "c07:sequence", case.clone());
+            }
+        }
         Some("foreign") => {
             let opts: Opts = serde_json::from_value(case["opts"].clone()).unwrap_or_default();
             let chars: [u8; 8] = serde_json::from_value(case["chars"].clone()).unwrap_or([1; 8]);
